@@ -93,6 +93,71 @@ def do_import(pid, src, offset=0):
     return kept
 
 
+def do_rebase(names):
+    """after a repair of /repo: re-fit every kept patch that no longer applies (patch --fuzz), regenerate it against HEAD and
+    re-verify it (same test sets as the clean tree, demo 0 clean / 1 patched) in a scratch worktree; report what needs hands"""
+    wt = worktree()
+    try:
+        base = None
+        for name in names:
+            d = os.path.join(V, 'seeded', name)
+            patch = os.path.join(d, 'patch.diff')
+            if not os.path.exists(patch):
+                continue
+            sh(['git', '-C', wt, 'checkout', '--', '.']); sh(['git', '-C', wt, 'clean', '-fdq'])
+            if sh(['git', '-C', wt, 'apply', '--check', patch]).returncode == 0:
+                continue
+            r = sh(['patch', '-p1', '--fuzz=3', '--no-backup-if-mismatch', '-i', patch], cwd=wt)
+            rej = sh(['git', '-C', wt, 'status', '--short']).stdout
+            if r.returncode != 0 or '.rej' in rej:
+                print(name, 'NEEDS HANDS:', (r.stdout + r.stderr).strip().splitlines()[-3:])
+                continue
+            diff = sh(['git', '-C', wt, 'diff']).stdout
+            demo = os.path.join(d, 'demo.py')
+            t = test_sets(wt)
+            d1 = sh([PY, demo], cwd=wt, timeout=600)
+            sh(['git', '-C', wt, 'checkout', '--', '.']); sh(['git', '-C', wt, 'clean', '-fdq'])
+            if base is None:
+                base = test_sets(wt)
+            d0 = sh([PY, demo], cwd=wt, timeout=600)
+            ok = t == base and d0.returncode == 0 and d1.returncode == 1
+            print(name, 're-fitted' if ok else 'RE-FIT FAILS VERIFICATION (tests same %r, demo %r/%r)' % (t == base, d0.returncode, d1.returncode))
+            if ok:
+                open(patch, 'w').write(diff)
+                mp = os.path.join(d, 'meta.json')
+                m = json.load(open(mp))
+                m.setdefault('verified', {})['rebased_onto'] = sh(['git', '-C', REPO, 'rev-parse', '--short', 'HEAD']).stdout.strip()
+                json.dump(m, open(mp, 'w'), indent=1)
+    finally:
+        drop_worktree(wt)
+
+
+def do_verify(names):
+    """re-verify kept patches against the current HEAD: apply, same test sets as the clean tree, demo 0 clean / 1 patched"""
+    wt = worktree()
+    try:
+        base = test_sets(wt)
+        for name in names:
+            d = os.path.join(V, 'seeded', name)
+            patch, demo = os.path.join(d, 'patch.diff'), os.path.join(d, 'demo.py')
+            sh(['git', '-C', wt, 'checkout', '--', '.']); sh(['git', '-C', wt, 'clean', '-fdq'])
+            d0 = sh([PY, demo], cwd=wt, timeout=600)
+            if sh(['git', '-C', wt, 'apply', patch]).returncode != 0:
+                print(name, 'DOES NOT APPLY')
+                continue
+            t = test_sets(wt)
+            d1 = sh([PY, demo], cwd=wt, timeout=600)
+            ok = t == base and d0.returncode == 0 and d1.returncode == 1
+            print(name, 'verified' if ok else 'FAILS (tests same %r, demo clean %r patched %r)' % (t == base, d0.returncode, d1.returncode))
+            if ok:
+                mp = os.path.join(d, 'meta.json')
+                m = json.load(open(mp))
+                m.setdefault('verified', {})['rebased_onto'] = sh(['git', '-C', REPO, 'rev-parse', '--short', 'HEAD']).stdout.strip()
+                json.dump(m, open(mp, 'w'), indent=1)
+    finally:
+        drop_worktree(wt)
+
+
 def run_one(name, pid, tier, seed):
     d = os.path.join(V, 'seeded', name)
     tmp = tempfile.mkdtemp(prefix='wdv-seedrun-')
@@ -121,6 +186,10 @@ def main():
     a1.add_argument('pid')
     a1.add_argument('--src')
     a1.add_argument('--offset', type=int, default=0)
+    a4 = sub.add_parser('verify')
+    a4.add_argument('names', nargs='*')
+    a3 = sub.add_parser('rebase')
+    a3.add_argument('names', nargs='*')
     a2 = sub.add_parser('run')
     a2.add_argument('names', nargs='*')
     a2.add_argument('--tier', default='quick')
@@ -129,6 +198,12 @@ def main():
     a2.add_argument('--seeds', help='comma list of VERIF_SEED values: report the detection rate per seeded change')
     a2.add_argument('--props', help='comma list: run these checks instead of the seeded property\'s own')
     a = ap.parse_args()
+    if a.cmd == 'verify':
+        do_verify(a.names)
+        return 0
+    if a.cmd == 'rebase':
+        do_rebase(a.names or sorted(os.listdir(os.path.join(V, 'seeded'))))
+        return 0
     if a.cmd == 'import':
         do_import(a.pid, a.src or '/tmp/seedout/' + a.pid, a.offset)
         return 0
